@@ -195,9 +195,10 @@ def run_check(pid, tier):
         procs.append((i, out, subprocess.Popen(cmd, stdout=lf, stderr=subprocess.STDOUT, env=env, cwd=scratch), lf))
     frags, broken = [], []
     hard = deadline * 1.5 + 120
+    t_run = time.time()  # the hard limit counts from the start of the shards, not of the (possibly long) library build
     for i, out, p, lf in procs:
         try:
-            rc = p.wait(timeout=max(1, hard - (time.time() - t0)))
+            rc = p.wait(timeout=max(1, hard - (time.time() - t_run)))
         except subprocess.TimeoutExpired:
             p.kill()
             rc = -9
@@ -274,7 +275,7 @@ def run_check(pid, tier):
         os.makedirs(rdir, exist_ok=True)
         rp = os.path.join(rdir, "%s-%d.json" % (sanitize(key), n))
         is_known = (pid, key) in known_keys
-        json.dump(dict(property=pid, key=key, what=v["what"], part=v["part"], case=v["case"], known_finding=is_known,
+        json.dump(dict(property=pid, key=key, what=v["what"], part=v["part"], case=v["case"], tier=tier, known_finding=is_known,
                        replay_cmd="python3-vt %s/vf.py replay %s" % (ROOT, rp),
                        harness_args=["--case", "%s:%s" % (v["part"], v["case"])]), open(rp, "w"), indent=1)
         if n == 0:
@@ -340,9 +341,9 @@ def replay(path):
     env["OMP_NUM_THREADS"] = "1"
     env["VF_SCRATCH"] = os.path.join(BUILD, "scratch", "replay_%d" % os.getpid())
     env["VF_ROOT"] = ROOT
-    env.setdefault("ASAN_OPTIONS", "detect_leaks=0")
+    env.setdefault("ASAN_OPTIONS", "detect_leaks=0:abort_on_error=1:allocator_may_return_null=1:max_allocation_size_mb=2048:handle_abort=0:handle_segv=0")
     os.makedirs(env["VF_SCRATCH"], exist_ok=True)
-    return subprocess.call([exe, "--tier", "thorough"] + r["harness_args"], env=env, cwd=env["VF_SCRATCH"])
+    return subprocess.call([exe, "--tier", r.get("tier", "thorough")] + r["harness_args"], env=env, cwd=env["VF_SCRATCH"])
 
 
 def main():
